@@ -108,7 +108,7 @@ def run_tlc(module, cfg, workdir, workers=16, timeout=3600, env=None, extra=(), 
     os.makedirs(workdir, exist_ok=True)
     meta = os.path.join(workdir, "meta_%s_%d" % (tag, int(time.time() * 1000) % 10**9))
     shutil.rmtree(meta, ignore_errors=True)
-    jopts = ["-XX:+UseParallelGC", "-Xss32m"]
+    jopts = ["-XX:+UseParallelGC", "-Xss32m", "-DTLA-Library=" + SPEC_DIR]
     if heap:
         jopts.append("-Xmx%s" % heap)
     if dfs:
@@ -122,14 +122,15 @@ def run_tlc(module, cfg, workdir, workers=16, timeout=3600, env=None, extra=(), 
     if simulate:
         cmd += ["-simulate", simulate]
     cmd += list(extra)
-    cmd.append(os.path.join(SPEC_DIR, module + ".tla"))
+    modpath = module if os.path.isabs(module) else os.path.join(SPEC_DIR, module + ".tla")
+    cmd.append(modpath)
     e = dict(os.environ)
     e.pop("JAVA_TOOL_OPTIONS", None)
     if env:
         e.update(env)
     t0 = time.time()
     try:
-        p = subprocess.run(cmd, cwd=SPEC_DIR, env=e, stdout=subprocess.PIPE, stderr=subprocess.STDOUT,
+        p = subprocess.run(cmd, cwd=os.path.dirname(modpath), env=e, stdout=subprocess.PIPE, stderr=subprocess.STDOUT,
                            timeout=timeout, text=True, errors="replace")
     except subprocess.TimeoutExpired as ex:
         shutil.rmtree(meta, ignore_errors=True)
